@@ -695,7 +695,7 @@ class Run:
 
 def run_kernel(kname, msg_id, cx_id, script, log, n_sub=None, outcomes=(), codes=(), peer_end_at=-1,
                peer_end_release=False, destination=("127.0.0.1", 11112), dest_established=True,
-               associate_raises=False, first_override=None):
+               associate_raises=False, first_override=None, req_edit=None):
     """Execute the REAL `<ServiceClass>.SCP(req, context)` of kernel `kname` against the stubs with
     the scripted handler; returns what was observed.  Must be called inside `with scp_env() as log`."""
     k = KERNELS[kname]
@@ -714,6 +714,8 @@ def run_kernel(kname, msg_id, cx_id, script, log, n_sub=None, outcomes=(), codes
         handler = script.return_handler(log, status_only=True)
     assoc = StubAssoc(handler, subops, ae, StubACSE(peer_end_at, peer_end_release))
     req = k.request(msg_id)
+    if req_edit is not None:
+        req_edit(req)
     cx = k.context(cx_id)
     svc = k.cls(assoc)
     out = Run()
